@@ -475,7 +475,7 @@ func init() {
 	extraCommands["hist"] = histMain
 	register(&CheckDef{
 		ID: "C16", Build: "instr", Run: c16Run, RunCase: c16RunCase,
-		Rule:        "states = every history of exactly k calls (all shorter ones are its prefixes) over an alphabet of 18 calls (k = 2 quick / 3 thorough; one longer over the 10 core calls) that collide on purpose: three universes with the same pseudo root and the same document URLs but different content, every family of entry point with and without root / base, and expansions / resolutions of both built-in meta-schemas; each history runs in a FRESH process; oracle (differential): every call's result, error, loader requests equal those of the same call made first in a fresh process, options and root unchanged, and the address-free deep fingerprint of every package-level variable (the default cache with both meta-schemas included) after every call equals the one after a single call; non-trivial = every history",
+		Rule:        "states = every history of exactly k calls (all shorter ones are its prefixes) over an alphabet of 22 calls (k = 2 quick / 3 thorough; one longer over the 14 core calls; deterministic histories are re-run on the un-instrumented build) that collide on purpose: three universes with the same pseudo root and the same document URLs but different content, every family of entry point with and without root / base, and expansions / resolutions of both built-in meta-schemas; each history runs in a FRESH process; oracle (differential): every call's result, error, loader requests equal those of the same call made first in a fresh process, options and root unchanged, and the address-free deep fingerprint of every package-level variable (the default cache with both meta-schemas included) after every call equals the one after a single call; non-trivial = every history",
 		Assumptions: []string{"runs on the instrumented build with the default (sorted) map order so that outputs of cyclic inputs are comparable between processes", "hidden state = package-level variables of package spec (enumerated from the type-checked tree by the generated export file) plus whatever makes a later call observe something else; state inside dependencies is only seen through the observations"},
 		MinOutcomes: 1,
 	})
